@@ -2,12 +2,21 @@
 # Rebuilds the driver (both profiles) from /repo's current working tree with hooks enabled. Exit 2 = cannot build.
 cd /verif/driver || exit 2
 export CARGO_NET_OFFLINE=true
-LOG=/verif/.target/build.log
-mkdir -p /verif/.target
+T=/verif/.target
+LOG=$T/build.log
+mkdir -p $T
 (
   flock 9
+  # cargo does not notice edits of the bundled C sources of dmntk-feel-number (its build script declares no
+  # rerun-if-changed for them in a way cargo tracks reliably): force that crate to be rebuilt when they changed
+  h=$(cat /repo/feel-number/decnumber/* /repo/feel-number/build.rs 2>/dev/null | sha1sum | cut -d' ' -f1)
+  if [ "$h" != "$(cat $T/decnumber.sha 2>/dev/null)" ]; then
+    cargo clean --offline --release -p dmntk-feel-number >/dev/null 2>&1
+    cargo clean --offline --profile checked -p dmntk-feel-number >/dev/null 2>&1
+    echo "$h" > $T/decnumber.sha
+  fi
   cargo build --offline --release >"$LOG" 2>&1 && cargo build --offline --profile checked >>"$LOG" 2>&1
-) 9>/verif/.target/build.lock
+) 9>$T/build.lock
 rc=$?
 if [ $rc -ne 0 ]; then
   echo "INCONCLUSIVE: driver build failed (see $LOG)"; tail -30 "$LOG"; exit 2
